@@ -62,6 +62,15 @@ def oracle(ctx, case, res, real):
         wbp2 = sum(len(r[1]) for _, recs in w2 for r in recs)
         if bp["output_read2"] != wbp2:
             ctx.failures.append(Failure("C04/output-bp2", "reported written bp (R2) differ from the output files", inp, bp["output_read2"], wbp2))
+    # quality-trimmed / poly-A-trimmed counts are sums over the reads of the bases those stages removed: every stage only removes bases, so
+    # (when no read is filtered) their sum cannot exceed input - output, and it equals it when no other length-changing option is used
+    if not filt or sum(filt.values()) == 0:
+        removed = bp["input"] - bp["output"]
+        qt = (bp["quality_trimmed"] or 0) + (bp["poly_a_trimmed"] or 0)
+        only_q = not any(o in argv for o in ("-a", "-g", "-b", "-A", "-G", "-B", "-u", "-U", "-l", "-L", "--trim-n"))
+        if qt > removed or (only_q and qt != removed):
+            ctx.failures.append(Failure("C04/trimmed-bp-not-sum-over-reads", "reported quality-trimmed + poly-A-trimmed bases differ from the bases the reads lost",
+                                        inp, dict(quality_trimmed=bp["quality_trimmed"], poly_a_trimmed=bp["poly_a_trimmed"]), dict(input_minus_output=removed)))
     # the text report must account for the same figures: every non-zero filter category of the statistics object is printed
     st = res2.stats
     from cutadapt.report import FILTERS
@@ -85,6 +94,14 @@ def directed_cases(ctx):
         r1, _ = pipe.gen_reads(rng, 6, ["AAAGGGCCC"], [], False)
         cases.append(dict(argv=["--no-index", "--max-aer", rng.choice(["0.01", "0.05", "0.2"]), "-o", "{dir}/o1.fastq"],
                           paired=False, reads1=r1, reads2=None, with_qual=True, interleaved_in=False))
+        # trimming-only command lines (no filters): the trimmed-bases figures must equal what the reads lost
+        r1, r2 = pipe.gen_reads(rng, 6, [], [], True)
+        q = rng.choice(["20", "15,10", "20,20", "30,25", "5,35"])
+        extra = rng.choice([[], ["--poly-a"], ["--nextseq-trim", "20"]])
+        cases.append(dict(argv=["--no-index", "-q", q] + extra + ["-o", "{dir}/o1.fastq"], paired=False, reads1=r1, reads2=None,
+                          with_qual=True, interleaved_in=False))
+        cases.append(dict(argv=["--no-index", "-q", q, "-Q", rng.choice(["10", "25,25"])] + extra + ["-o", "{dir}/o1.fastq", "-p", "{dir}/o2.fastq"],
+                          paired=True, reads1=r1, reads2=r2, with_qual=True, interleaved_in=False))
     return cases
 
 
